@@ -572,6 +572,61 @@ def h21_default_dtype_result(ctx, tk, rule, funcs):
                                  "all empty come back int64, and adding them to unsigned values promotes to float64" % (x,), node=x.node, engine="KB")
 
 
+def h22_reduceat_clamped(ctx, tk, rule, funcs):
+    """ufunc.reduceat(a, idx) reduces a[idx[i]:idx[i+1]]: an index clamped into range (np.minimum / np.clip to size-1) to
+    avoid the IndexError for idx == len(a) shortens the segment in front of it by one element"""
+    for f in funcs:
+        fa = ctx.fa(f)
+        for n, c in find_calls(fa, lambda c: c.a[0].k == "attr" and c.a[0].a[1] == "reduceat" and len(c.a[1]) >= 2):
+            idx = c.a[1][1]
+            if any(np_call(x, {"minimum", "clip"}) for a in alts(idx) for x in walk(a)):
+                ctx.violated(rule, f, "reduceat segment boundaries are used unmodified (trimmed, never clamped)",
+                             "`%s`: clamping the start of a trailing empty segment to size-1 makes the segment before it end one element early" % (c,),
+                             node=c.node, engine="KB")
+
+
+def h23_uninitialised_result(ctx, tk, rule, funcs):
+    """np.empty / np.empty_like hand out uninitialised memory: returned as the data of a result they must be filled
+    completely, or be known to have no cells (a dominating `size == 0` test)"""
+    for f in funcs:
+        fa = ctx.fa(f)
+        for r in fa.cfg.returns():
+            if r.ast.value is None:
+                continue
+            tm = fa.term(r.ast.value, r)
+            for a in alts(tm):
+                core = a
+                # constructor wrapping:  cls(np.empty_like(...), shape)
+                if core.k == "call" and core.a[1] and not np_call(core, {"empty", "empty_like"}):
+                    inner = [x for x in core.a[1] if np_call(x, {"empty", "empty_like"})]
+                    if not inner:
+                        continue
+                    core = inner[0]
+                if not np_call(core, {"empty", "empty_like"}):
+                    continue
+                zero = any(((t.k == "cmp" and t.a[0] == "==" and is_const(t.a[2], 0) and truth) or (t.k == "cmp" and t.a[0] == "!=" and is_const(t.a[2], 0) and not truth)
+                            or (t.k == "attr" and t.a[1] == "size" and not truth) or (t.k == "call" and call_name(t) == "len" and not truth))
+                           for t, truth, _ in facts_at(fa, r))
+                const_zero = np_call(core, {"empty"}) and core.a[1] and any(is_const(y, 0) for y in walk(core.a[1][0]))
+                other = [t for t, truth, _ in facts_at(fa, r) if any(x.k == "attr" and x.a[1] == "size" for x in walk(t))]
+                ctx.decide(rule, f, "uninitialised memory (np.empty / np.empty_like) is returned only for results without cells", True if (zero or const_zero) else (False if other else None),
+                           "`%s` is returned under a condition that does not make it empty: its cells hold whatever was in memory" % (core,), node=r.ast, engine="KB")
+
+
+def h24_memory_layout_as_shape(ctx, tk, rule, funcs):
+    """.strides describes the memory of one particular array object; offsets for a logical (row, column) position computed from
+    it are wrong for every view that is not C-contiguous, in particular next to .ravel() / np.asarray copies that re-pack the data"""
+    for f in funcs:
+        fa = ctx.fa(f)
+        for n in fa.cfg.stmts():
+            for e in _exprs(n):
+                for x in ast.walk(e):
+                    if isinstance(x, ast.Attribute) and x.attr == "strides" and isinstance(x.ctx, ast.Load):
+                        ctx.violated(rule, f, "logical positions are computed from shapes, not from memory strides",
+                                     "`%s`: the stride is the memory pitch of this particular view; combined with flattened (re-packed) data it addresses the wrong cells for "
+                                     "sliced, transposed or Fortran-ordered inputs" % ast.unparse(x), node=x, engine="KB")
+
+
 def generic(ctx, tk, rule, funcs, skip=()):
     """all deviance-form hazard rules over a property's function scope"""
     fs = [f for f in funcs if f.qual not in skip]
@@ -594,6 +649,9 @@ def generic(ctx, tk, rule, funcs, skip=()):
     h17_tolerance_as_equality(ctx, tk, rule + "/H17", fs)
     h18_cross_operand_store(ctx, tk, rule + "/H18", fs)
     h20_chunk_loop_drops_tail(ctx, tk, rule + "/H20", fs)
+    h22_reduceat_clamped(ctx, tk, rule + "/H22", fs)
+    h23_uninitialised_result(ctx, tk, rule + "/H23", fs)
+    h24_memory_layout_as_shape(ctx, tk, rule + "/H24", fs)
     from . import wellformed as _W
     _W.report_constant_truth(ctx, tk, rule, fs)
     # H19 (raw ufunc identity stored) depends on which ufunc the caller chose: it is applied by C05 only, where the
